@@ -419,17 +419,53 @@ class Explorer:
         self.pos = 0
         self.pc = []
         self.solver_s = 0.0
+        self.slice_feasibility = False
+        self._vcache = {}
 
     def start(self, script):
         self.script = list(script)
         self.pos = 0
         self.pc = []
 
+    def _lit_vars(self, e):
+        key = e.get_id()
+        ent = self._vcache.get(key)
+        c = ent[1] if ent is not None else None        # the entry keeps `e` alive, so its id cannot be reused
+        if c is None:
+            c, todo, seen = set(), [e], set()
+            while todo:
+                x = todo.pop()
+                if x.get_id() in seen:
+                    continue
+                seen.add(x.get_id())
+                if z3.is_const(x) and x.decl().kind() == z3.Z3_OP_UNINTERPRETED:
+                    c.add(x.get_id())
+                todo.extend(x.children())
+            self._vcache[key] = (e, c)
+        return c
+
+    def relevant_pc(self, t):
+        """path-condition literals in the cone of influence of t (transitively sharing a variable).  With
+        slice_feasibility the feasibility of a direction is decided against these only: dropping literals can only make
+        more directions feasible, so every real path is still explored (and the per-path obligations are decided under
+        their own path condition); when the dropped literals share no variable with the rest the answer is exact."""
+        tv = set(self._lit_vars(t))
+        lits = [(self._lit_vars(l), l) for l in self.pc]
+        rel, rest = [], lits
+        while True:
+            hit = [(v, l) for v, l in rest if v & tv]
+            if not hit:
+                return rel
+            rest = [(v, l) for v, l in rest if not (v & tv)]
+            for v, l in hit:
+                tv |= v
+                rel.append(l)
+
     def feasible(self, t):
         import time
         t0 = time.time()
         self.solver.push()
-        self.solver.add(*self.pc)
+        self.solver.add(*(self.relevant_pc(t) if self.slice_feasibility else self.pc))
         self.solver.add(t)
         r = str(self.solver.check())
         self.solver.pop()
